@@ -26,6 +26,7 @@ import torch
 
 from ..extract import c15_dispatch
 from ..extract import c15_rejections
+from ..extract import c15_sigs
 
 # --------------------------------------------------------------------------------------------------------------
 # instances
@@ -331,6 +332,9 @@ STRICT = {"torch.add", "torch.sub", "torch.mul", "torch.div", "torch.matmul", "t
           "torch.Tensor.add", "torch.Tensor.sub", "torch.Tensor.mul", "torch.Tensor.matmul", "pyop"}
 # argument forms a method may decline with its own NotImplementedError (today it silently ignores them: open finding)
 LEGIT_NOT_IMPLEMENTED = {("torch.diagonal", "batch-dims")}
+# ... and on batched operators only: forms that leave dim1 and/or dim2 to torch's defaults (0, 1), which are not the matrix dims there
+# (today the method silently substitutes its own defaults -2 / -1: open finding; notes/C15_fix_6.diff makes it decline)
+LEGIT_NOT_IMPLEMENTED_BATCHED = {("torch.diagonal", lb) for lb in ("()", "offset0", "mix:offset|dim2", "kw:dim1", "pos:offset,dim1")}
 BASELINE_OUT = None   # dict while (re)recording the rejection baseline (development only, see record_baseline)
 
 # one-operand numeric functions whose *method* semantics (matrix function vs elementwise, symmetric-only eigh, ...) is the
@@ -452,6 +456,55 @@ def operand_kinds(rng, cname, b, n, dt, seedbase):
     return kinds
 
 
+FORM_PREFIXES = ("pos:", "kw:", "mix:", "nan:")   # call-form templates: every optional argument positionally / by keyword
+
+
+def isclose_forms(K, asym):
+    """Call forms of torch.isclose(x, y, rtol=1e-05, atol=1e-08, equal_nan=False): every optional argument passed positionally and
+    by keyword, with values / operands for which the defaults give a different mask.  (label, other operand, kwargs, extra positionals);
+    `nan:` forms run on a twin of the operator that carries a NaN.  `asym` = the operand for which rtol=0.5 holds in one direction only.
+      near-dense  = A (1 + 2^-10)   relative distance ~1e-3: close with rtol=1e-2 only
+      shift-dense = A + 1/2         absolute distance 0.5:   close with atol=1 only
+      nan-dense   = A_nan           NaN at the same places:  close with equal_nan=True only"""
+    return [("pos:rtol", K("near-dense"), {}, [1e-2]),
+            ("pos:rtol,atol", K("shift-dense"), {}, [0.0, 1.0]),
+            ("pos:rtol,atol/asym", K(asym), {}, [0.5, 0.0]),
+            ("pos:rtol,atol,equal_nan=False", K("near-dense"), {}, [1e-2, 0.0, False]),
+            ("mix:rtol|atol", K("shift-dense"), {"atol": 1.0}, [0.0]),
+            ("mix:rtol|equal_nan", K("near-dense"), {"equal_nan": False}, [1e-2]),
+            ("kw:rtol", K("near-dense"), {"rtol": 1e-2}, []),
+            ("kw:atol", K("shift-dense"), {"atol": 1.0}, []),
+            ("kw:atol,rtol", K("shift-dense"), {"atol": 1.0, "rtol": 0.0}, []),
+            ("nan:pos:rtol,atol,equal_nan", K("nan-near-dense"), {}, [1e-2, 0.0, True]),
+            ("nan:mix:rtol,atol|equal_nan", K("nan-near-dense"), {"equal_nan": True}, [1e-2, 0.0]),
+            ("nan:kw:equal_nan", K("nan-dense"), {"equal_nan": True}, []),
+            ("nan:kw:all", K("nan-near-dense"), {"equal_nan": True, "atol": 0.0, "rtol": 1e-2}, []),
+            ("nan:default", K("nan-dense"), {}, [])]
+
+
+def nanify(op):
+    """Twin of `op` (same class, same structure) with a NaN in the last element of the first floating-point tensor of its
+    representation; None if the class holds no floating-point data (Identity, Zero, permutations)."""
+    from linear_operator.operators import LinearOperator
+    done = [False]
+
+    def rec(x):
+        if done[0]:
+            return x
+        if isinstance(x, LinearOperator):
+            args = [rec(a) for a in x._args]
+            return x.__class__(*args, **x._kwargs) if done[0] else x
+        if isinstance(x, torch.Tensor) and x.is_floating_point() and x.numel() > 0:
+            y = x.clone()
+            y.reshape(-1)[-1] = float("nan")
+            done[0] = True
+            return y
+        return x
+
+    res = rec(op)
+    return res if done[0] else None
+
+
 def templates_first(fkey, b, n, dt, rng, kinds):
     """[(label, extra positional args (thunks or values), kwargs)] for torch.f(op, *extra, **kwargs)"""
     nb = len(b)
@@ -459,9 +512,9 @@ def templates_first(fkey, b, n, dt, rng, kinds):
     if fkey == "torch.clone":
         return [("()", [], {}), ("memory_format", [], {"memory_format": torch.contiguous_format})]
     if fkey in ("torch.linalg.eigh", "torch.linalg.eigvalsh"):
-        return [("()", [], {}), ("UPLO", [], {"UPLO": "U"})]
+        return [("()", [], {}), ("UPLO", [], {"UPLO": "U"}), ("pos:UPLO", ["U"], {})]
     if fkey == "torch.linalg.svd":
-        return [("()", [], {}), ("full_matrices", [], {"full_matrices": False})]
+        return [("()", [], {}), ("full_matrices", [], {"full_matrices": False}), ("pos:full_matrices", [False], {})]
     if fkey in UNARY_PLAIN:
         return [("()", [], {})]
     if fkey == "torch.linalg.cholesky":
@@ -471,6 +524,8 @@ def templates_first(fkey, b, n, dt, rng, kinds):
                ("dims-rev", [], {"dim1": -1, "dim2": -2}), ("offset-1", [-1], {}), ("kw-offset0+dims", [], {"offset": 0, "dim1": -2, "dim2": -1}),
                ("pos-dims", [], {"dim1": nb, "dim2": nb + 1}), ("positional", [0, -2, -1], {}),
                ("kw-offset1+dims", [], {"offset": 1, "dim1": -2, "dim2": -1})]
+        # one dim supplied, the other left to the default (torch: dim1=0 / dim2=1, the method: -2 / -1): same dims without a batch
+        res += [("mix:offset|dim2", [0], {"dim2": -1}), ("kw:dim1", [], {"dim1": -2}), ("pos:offset,dim1", [0, -2], {})]
         if nb:
             res += [("batch-dims", [], {"dim1": 0, "dim2": -1})]
         return res
@@ -517,12 +572,14 @@ def templates_first(fkey, b, n, dt, rng, kinds):
         return [("0", [0], {}), ("dim=0", [], {"dim": 0}), ("-1", [-1], {}), ("neg-first", [-(nb + 3)], {}), ("-3", [-3], {})] + \
                ([("1", [1], {})] if nb else [])
     if fkey == "torch.sum":
-        return [("-1", [-1], {}), ("-2", [-2], {}), ("dim=-1", [], {"dim": -1}), ("pos-last", [nb + 1], {}), ("pos-rows", [nb], {}),
+        return [("pos:dim,keepdim", [-1, True], {}), ("kw:dim,keepdim", [], {"keepdim": True, "dim": -2}), ("mix:dim|dtype", [-1], {"dtype": torch.float32}),
+                ("-1", [-1], {}), ("-2", [-2], {}), ("dim=-1", [], {"dim": -1}), ("pos-last", [nb + 1], {}), ("pos-rows", [nb], {}),
                 ("tuple", [(-1, -2)], {}), ("dim=tuple", [], {"dim": (-2, -1)}), ("keepdim", [-1], {"keepdim": True}),
                 ("dim=-2,keepdim", [], {"dim": -2, "keepdim": True})] + \
                ([("0", [0], {}), ("neg-batch", [-3], {}), ("dim=0,keepdim", [], {"dim": 0, "keepdim": True})] if nb else []) + [("all", [], {})]
     if fkey == "torch.prod":
-        return [("0", [0], {}), ("-1", [-1], {}), ("dim=0", [], {"dim": 0}), ("-2", [-2], {}), ("keepdim", [0], {"keepdim": True})] + \
+        return [("pos:dim,keepdim", [0, True], {}), ("kw:dim,keepdim", [], {"keepdim": True, "dim": 0}),
+                ("0", [0], {}), ("-1", [-1], {}), ("dim=0", [], {"dim": 0}), ("-2", [-2], {}), ("keepdim", [0], {"keepdim": True})] + \
                ([("neg-batch", [-3], {})] if nb else [])
     if fkey == "torch.linalg.solve":
         B = imat(rng, *b, n, 2, dtype=dt)
@@ -537,7 +594,8 @@ def templates_first(fkey, b, n, dt, rng, kinds):
     if fkey == "torch.isclose":
         return [("tensor", [K("self-dense")], {}), ("tensor-off", [K("tensor")], {}), ("rtol", [K("double-dense")], {"rtol": 0.5, "atol": 0.0}),
                 ("op", [K("op-same")], {}), ("equal_nan", [K("self-dense")], {"equal_nan": True}), ("kw-other", [], {"other": K("self-dense")}),
-                ("atol", [K("tensor")], {"rtol": 0.0, "atol": 2.0})]
+                ("atol", [K("tensor")], {"rtol": 0.0, "atol": 2.0})] + \
+               [(lb, [x] + extra, kw) for lb, x, kw, extra in isclose_forms(K, "double-dense")]
     if fkey == "torch.matmul":
         M = imat(rng, *b, n, 2, dtype=dt)
         v = imat(rng, n, dtype=dt)
@@ -581,9 +639,8 @@ def templates_second(fkey, b, n, dt, rng, kinds):
             res += [("kw-op", K("tensor"), {"other": SELF}), ("kw-input+op", None, {"input": K("tensor"), "other": SELF})]
         return res
     if fkey == "torch.isclose":
-        return [("tensor", K("self-dense"), {}), ("tensor-off", K("tensor"), {}), ("rtol", K("half-dense"), {"rtol": 0.5, "atol": 0.0}),
-                ("op-super", K("op-super"), {})] if "op-super" in kinds else \
-               [("tensor", K("self-dense"), {}), ("tensor-off", K("tensor"), {}), ("rtol", K("half-dense"), {"rtol": 0.5, "atol": 0.0})]
+        return [("tensor", K("self-dense"), {}), ("tensor-off", K("tensor"), {}), ("rtol", K("half-dense"), {"rtol": 0.5, "atol": 0.0})] + \
+               ([("op-super", K("op-super"), {})] if "op-super" in kinds else []) + isclose_forms(K, "half-dense")
     if fkey.startswith("torch.Tensor."):
         ks = [k for k in ("tensor", "tensor-bcast", "0d", "const11", "bconst", "bconst-partial") if k in kinds]
         res = [(k, K(k), {}) for k in ks]
@@ -654,6 +711,9 @@ class Group:
     def op(self):
         return build(self.cname, random.Random(self.gseed), self.batch, dtype=self.dt)
 
+    def op_nan(self):
+        return nanify(self.op())
+
     def setup(self):
         op = self.op()
         self.opdt = op.dtype
@@ -665,7 +725,19 @@ class Group:
         self.kinds = operand_kinds(rng, self.cname, self.b, self.n, self.opdt, self.gseed)
         A = self.A
         self.kinds_extra = {"self-dense": lambda: A.clone(), "double-dense": lambda: 2 * A, "half-dense": lambda: A / 2,
-                            "outbuf": lambda: torch.empty_like(A)}
+                            "outbuf": lambda: torch.empty_like(A),
+                            "near-dense": lambda: A * (1 + 2.0 ** -10), "shift-dense": lambda: A + 0.5}
+        try:
+            with warnings.catch_warnings():
+                warnings.simplefilter("ignore")
+                opn = self.op_nan()
+                An = None if opn is None else opn.to_dense()
+        except Exception:  # noqa: BLE001 -- a class that cannot hold a NaN: the nan: forms are skipped (counted)
+            An = None
+        self.has_nan = An is not None and bool(torch.isnan(An).any()) and tuple(An.shape) == tuple(A.shape)
+        if self.has_nan:
+            self.kinds_extra["nan-dense"] = lambda: An.clone()
+            self.kinds_extra["nan-near-dense"] = lambda: An * (1 + 2.0 ** -10)
         self.trng = rng
 
     def value(self, spec):
@@ -694,8 +766,11 @@ class Group:
         cell = f"C15/{fkey}/{posname}/{self.cname}/{label}/{self.bid}"
         kwspecs = kwargs
 
+        is_form = label.startswith(FORM_PREFIXES)
+        maker = self.op_nan if label.startswith("nan:") else self.op
+
         def mk():
-            op = self.op()
+            op = maker()
             return ([op if s is None else self.value(s) for s in argspecs],
                     {k: (op if v == SELF else self.value(v)) for k, v in kwspecs.items()})
 
@@ -752,6 +827,8 @@ class Group:
             impl_route = f"pre-dispatch {type(r_impl[1]).__name__}"
         else:
             impl_route = "no-handler-observed"
+        if obs is not None and is_op(obs[2][0]):
+            self.bind_line(cell, obs, self.payload(fkey=fkey, pos=pos, label=label))
         chk.count("route:" + impl_route.split(" ")[0] + (":" + impl_route.split(" ")[1].split(".")[-1] if impl_route.startswith("call") else ""))
         kwtok = [arg_token(v) for v in call_kwargs.values() if isinstance(v, torch.Tensor) or is_op(v) or isinstance(v, FG)]
         if kwtok:
@@ -763,6 +840,16 @@ class Group:
         # method twin: make the call the observation says (if any) directly
         r_dense = outcome(lambda: fn(*[densify(a) for a in args3], **{k: densify(v) for k, v in kwargs3.items()}))
         nontrivial = r_impl[0] == "ok"
+        if is_form and r_dense[0] == "ok":
+            # does every supplied optional argument matter?  dense torch without the trailing positional / without each keyword
+            nop = 1 if pos == 0 and fkey not in BINARY else 2
+            dargs, dkw = [densify(a) for a in args3], {k: densify(v) for k, v in kwargs3.items()}
+            variants = ([(dargs[:-1], dkw)] if len(dargs) > nop else []) + [(dargs, {k: v for k, v in dkw.items() if k != kk}) for kk in dkw]
+            outs = [outcome(lambda a=a, k=k: fn(*a, **k)) for a, k in variants]
+            disc = [o[0] != "ok" or same(o[2], r_dense[2], 0.0) is not None for o in outs]
+            chk.count("form:" + ("no-optional-argument" if not disc else "every-argument-matters" if all(disc) else
+                                 "some-argument-matters" if any(disc) else "arguments-do-not-matter"))
+            nontrivial = nontrivial and (any(disc) or not disc)
         chk.case(desc, nontrivial=nontrivial)
         chk.count("fn:" + fkey)
         chk.count("class:" + self.cname)
@@ -804,8 +891,13 @@ class Group:
                 chk.count("rejected:" + type(r_impl[1]).__name__)
                 # ring / shape functions reject by type or shape only: a rejection that the unchanged tree does not have
                 # (baseline harness/extract/c15_rejections.py) is a failure to give the dense result
-                legit = (fkey, label) in LEGIT_NOT_IMPLEMENTED and isinstance(r_impl[1], NotImplementedError) and obs is not None
-                if fkey in STRICT and "fg" not in tokens and not legit:
+                legit = ((fkey, label) in LEGIT_NOT_IMPLEMENTED or (self.b and (fkey, label) in LEGIT_NOT_IMPLEMENTED_BATCHED)) and \
+                    isinstance(r_impl[1], NotImplementedError) and obs is not None
+                if is_form and obs is not None and isinstance(r_impl[1], TypeError) and self.sig_rejects(obs):
+                    # the handler's signature has no such parameter: rejected by Python's argument binding (modelled: `bind` lines,
+                    # generated signatures, `forward_drops_nothing`) — it raises, it does not drop the argument
+                    chk.count("rejected:by-signature")
+                elif fkey in STRICT and "fg" not in tokens and not legit:
                     key = self.rej_key(fkey, posname, label)
                     if BASELINE_OUT is not None and posname != "kw" and "bconst" not in label:   # never baseline known defects
                         BASELINE_OUT[key] = type(r_impl[1]).__name__
@@ -836,6 +928,58 @@ class Group:
                 vline = f"val {fkey} {arg_token(args1[0])} {arg_token(args1[1])} {al} {fmt(X)} {fmt(Y)}"
                 self.lines.append((vline, fmt(got), cell + "/value-model", self.payload(fkey=fkey, pos=pos, label=label), "val"))
         return ok
+
+    @staticmethod
+    def sig_rejects(obs):
+        import inspect
+        nm, definer, a, kw = obs
+        try:
+            inspect.signature(getattr(type(a[0]), nm)).bind(*a, **kw)
+            return False
+        except TypeError:
+            return True
+
+    def bind_line(self, cell, obs, payload):
+        """Correspondence of the argument-binding model: Lean `bindPy` on the generated signature of the resolved handler vs Python's
+        own binding (`inspect.signature(handler).bind(...)` + defaults) of the observed handler call, one line per distinct call shape."""
+        import inspect
+        nm, definer, a, kw = obs
+        cls = type(a[0])
+
+        def tok(v):
+            if is_op(v):
+                return "op"
+            if isinstance(v, torch.Tensor):
+                return "t"
+            return c15_sigs.token(v)
+
+        ptoks, ktoks = [tok(v) for v in a], {k: tok(v) for k, v in kw.items()}
+        if any(ch in t for t in ptoks + list(ktoks.values()) for ch in "; =") or any("=" in k for k in ktoks):
+            return
+        key = (cls.__name__, nm, tuple(ptoks), tuple(sorted(ktoks.items())))
+        if key in self.chk.__dict__.setdefault("_c15_bind_seen", set()):
+            return
+        self.chk._c15_bind_seen.add(key)
+        f = getattr(cls, nm)
+        sig = inspect.signature(f)
+        try:
+            ba = sig.bind(*ptoks, **ktoks)
+            ba.apply_defaults()
+            parts = []
+            for pname, v in ba.arguments.items():
+                kind = sig.parameters[pname].kind
+                if kind == inspect.Parameter.VAR_POSITIONAL:
+                    parts.append("*=(" + ",".join(v) + ")")
+                elif kind == inspect.Parameter.VAR_KEYWORD:
+                    parts.append("**={" + ",".join(f"{k}={x}" for k, x in v.items()) + "}")
+                else:
+                    parts.append(f"{pname}={v if isinstance(v, str) and (v in ptoks or v in ktoks.values()) else c15_sigs.token(v)}")
+            exp = "ok " + ";".join(parts)
+        except TypeError:
+            exp = "err"
+        line = f"bind {cls.__name__} {nm} {';'.join(ptoks) or '-'} {';'.join(f'{k}={v}' for k, v in ktoks.items()) or '-'}"
+        self.lines.append((line, exp, cell + "/bind", payload, "bind"))
+        self.chk.count("bind-shapes:" + ("accepted" if exp != "err" else "TypeError"))
 
     def two_step(self, cell, fkey, tokens, res, D, payload):
         """`res` (operator) is the dispatched result, `D` what torch gives on dense operands (already found equal).
@@ -903,14 +1047,19 @@ class Group:
             for label, extra, kwargs in templates_first(fkey, self.b, self.n, self.opdt, rng, self.kinds):
                 if any(isinstance(s, tuple) and s[:1] == ("kind",) and s[1] not in self.kinds and s[1] not in self.kinds_extra
                        for s in list(extra) + list(kwargs.values())):
+                    if label.startswith("nan:"):
+                        self.chk.count("nan-form-skipped:no-floating-point-data")
                     continue
                 if only and (fkey, 0, label) != only:
                     continue
                 self.run_call(fkey, fn, 0, label, [None] + list(extra), kwargs, "first")
         for fkey, meth in ([] if self.restricted else tab["second"]):
             fn = c15_dispatch.resolve_torch_name(fkey)
-            for label, x, kwargs in templates_second(fkey, self.b, self.n, self.opdt, rng, self.kinds):
+            for label, x, kwargs, *more in templates_second(fkey, self.b, self.n, self.opdt, rng, self.kinds):
+                extra = list(more[0]) if more else []      # positional arguments after the two operands
                 if isinstance(x, tuple) and x[:1] == ("kind",) and x[1] not in self.kinds and x[1] not in self.kinds_extra:
+                    if label.startswith("nan:"):
+                        self.chk.count("nan-form-skipped:no-floating-point-data")
                     continue
                 if fkey.startswith("torch.Tensor.") and SELF in kwargs.values():
                     continue
@@ -920,7 +1069,7 @@ class Group:
                 if by_kw:
                     self.run_call(fkey, fn, None, label, [] if x is None else [x], kwargs, "second")
                 else:
-                    self.run_call(fkey, fn, 1, label, [x, None], kwargs, "second")
+                    self.run_call(fkey, fn, 1, label, [x, None] + extra, kwargs, "second")
         # python operators
         for entry in ([] if self.restricted else PYOPS):
             label, fkey, f = entry[:3]
@@ -1026,7 +1175,7 @@ def fmt(M):
 # entry points
 # --------------------------------------------------------------------------------------------------------------
 
-LEAN_SOURCES = ["LinOp/C15", "LinOp/Generated/C15Tables.lean", "LinOp/Core/Parse.lean", "LinOp/Core/Basic.lean", "LinOp/Core/Bridge.lean"]
+LEAN_SOURCES = ["LinOp/C15", "LinOp/Generated/C15Tables.lean", "LinOp/Generated/C15Sigs.lean", "LinOp/Core/Parse.lean", "LinOp/Core/Basic.lean", "LinOp/Core/Bridge.lean"]
 
 
 def mro_lines(tab):
@@ -1106,6 +1255,53 @@ def plan(chk, classes):
     return groups
 
 
+def enumerate_unregistered(chk, tab, lines):
+    """Every function of `torch.overrides.get_overridable_functions()` that is in neither table: what `__torch_function__` sees
+    (called directly with the `types` / `args` torch would pass) for f(op), f(op, T), f(T, op), f([op, T]), f((T, op)) must be a
+    NotImplementedError, on a leaf class, a subclass with overrides and the abstract base; the model agrees (`disp` / `dispk`)."""
+    import linear_operator.operators as O
+    from linear_operator.operators import _linear_operator as L
+    from torch.overrides import get_overridable_functions
+    registered = set(L._HANDLED_FUNCTIONS) | set(L._HANDLED_SECOND_ARG_FUNCTIONS)
+    T = torch.eye(3, dtype=torch.float64)
+    ops = [O.DenseLinearOperator(T + 1), O.DiagLinearOperator(torch.ones(3, dtype=torch.float64)),
+           O.IdentityLinearOperator(3, dtype=torch.float64)]
+    seen, nfn = set(), 0
+    for ns, fns in get_overridable_functions().items():
+        nsname = ns.__name__ if hasattr(ns, "__name__") else str(ns)
+        for fn in fns:
+            if id(fn) in seen:
+                continue
+            seen.add(id(fn))
+            if fn in registered:
+                chk.count("overridable:registered")
+                continue
+            nfn += 1
+            fname = f"{nsname}.{getattr(fn, '__name__', type(fn).__name__)}".replace(" ", "_")
+            for op in ops:
+                cn = type(op).__name__
+                forms = [("f(op)", (op,), f"disp ovr:{fname} op:{cn}"), ("f(op,T)", (op, T), f"disp ovr:{fname} op:{cn};t"),
+                         ("f(T,op)", (T, op), f"disp ovr:{fname} t;op:{cn}"), ("f([op,T])", ([op, T],), f"dispk ovr:{fname} s op:{cn}"),
+                         ("f((T,op),0)", ((T, op), 0), f"dispk ovr:{fname} s;s op:{cn}")]
+                for flabel, args, line in forms:
+                    cell = f"C15/unregistered-all/{flabel}/{cn}"
+                    try:
+                        r = type(op).__torch_function__(fn, (type(op),), args, {})
+                        got = "returned " + type(r).__name__
+                    except NotImplementedError as e:
+                        got = "ok" if from_torch_function(e) else f"NotImplementedError with another message: {e}"
+                    except Exception as e:  # noqa: BLE001
+                        got = f"{type(e).__name__}: {e}"
+                    chk.count("overridable:calls")
+                    if got != "ok":
+                        chk.violation(cell, f"__torch_function__({fname}, {flabel}) on {cn}: expected NotImplementedError, got {got}",
+                                      {"unreg_all": fname, "form": flabel, "class": cn})
+                    elif op is ops[0] or flabel == "f(T,op)":
+                        lines.append((line, "raise NotImplementedError", cell + "/route", {"unreg_all": fname}, "route"))
+    chk.case(f"C15/unregistered-all: {nfn} overridable functions x 3 classes x 5 argument forms", nontrivial=True)
+    chk.count("overridable:unregistered-functions", nfn)
+
+
 def run(chk, only_group=None):
     torch.manual_seed(chk.rng.randrange(2 ** 31))
     tab = c15_dispatch.generate()
@@ -1120,6 +1316,11 @@ def run(chk, only_group=None):
                         "float data are small integers, so ring results are exact"]
     for msg in c15_dispatch.dynamic_crosscheck(tab):
         chk.proof_break("translator(C15Tables)", msg)
+    sg = c15_sigs.generate(tab)
+    for msg in c15_sigs.dynamic_crosscheck(sg):
+        chk.proof_break("translator(C15Sigs)", msg)
+    for msg in c15_sigs.validate_torch_sigs():
+        chk.proof_break("translator(C15Sigs: torch signatures)", msg)
     chk.prove("LinOp.Properties.C15", LEAN_SOURCES)
     # required registrations (the property statement lists them)
     first, second = dict(tab["first"]), dict(tab["second"])
@@ -1141,16 +1342,26 @@ def run(chk, only_group=None):
         except Exception as e:  # noqa: BLE001 -- a harness error must not pass silently
             chk.proof_break("harness", f"group {cname} {batch} {dt} seed {gseed}: {type(e).__name__}: {e}")
         lines += g.lines
+    if only_group is None:
+        try:
+            enumerate_unregistered(chk, tab, lines)
+        except Exception as e:  # noqa: BLE001
+            chk.proof_break("harness", f"enumeration of the overridable functions: {type(e).__name__}: {e}")
     check_lines(chk, lines)
 
 
 def replay(chk, payload):
     p = payload.get("payload") or {}
+    if "unreg_all" in p:
+        lines = []
+        enumerate_unregistered(chk, c15_dispatch.generate(), lines)
+        return check_lines(chk, lines)
     if "gseed" not in p:
         print("replay names broken obligations only:", json.dumps(p)[:2000])
         return run(chk)
     dt = torch.float32 if "32" in p["dtype"] else torch.float64
     tab = c15_dispatch.generate()
+    c15_sigs.generate(tab)
     from linear_operator.operators import _linear_operator as L
     g = Group(chk, tab, p["class"], tuple(p["batch"]), dt, p["gseed"], p.get("restricted", False))
     g.rt_first, g.rt_second = L._HANDLED_FUNCTIONS, L._HANDLED_SECOND_ARG_FUNCTIONS
